@@ -21,6 +21,7 @@ type Env struct {
 	names map[string]Val // source-level variable names on this path
 	fn    *ssa.Function
 	depth int
+	unfold int
 }
 
 func (e *Env) with(name string, v Val) *Env {
@@ -289,6 +290,7 @@ func (fv *FV) evalSpec(e *Expr, env *Env) Val {
 		case "#":
 			switch x.S {
 			case "Slice":
+				env.st.addIdx(fmt.Sprintf("(slen %s)", x.T))
 				return Val{T: fmt.Sprintf("(slen %s)", x.T), S: "Int"}
 			case "Str":
 				return Val{T: fmt.Sprintf("(str_len %s)", x.T), S: "Int"}
@@ -309,7 +311,7 @@ func (fv *FV) evalSpec(e *Expr, env *Env) Val {
 		d := fv.evalSpec(e.Args[0], env)
 		return fv.evalSpec(e.Args[1], env.with(e.Name, d))
 	case "forall", "exists":
-		if e.Args[0].Op == "int" && e.Args[1].Op == "int" {
+		if smallConstRange(e) {
 			var lo, hi int
 			fmt.Sscan(e.Args[0].Name, &lo)
 			fmt.Sscan(e.Args[1].Name, &hi)
@@ -521,7 +523,26 @@ func (fv *FV) evalCall(e *Expr, env *Env) Val {
 		if len(a) == 0 {
 			return Val{T: sf.Name, S: sf.Ret}
 		}
-		return Val{T: "(" + sf.Name + " " + strings.Join(a, " ") + ")", S: sf.Ret}
+		t := "(" + sf.Name + " " + strings.Join(a, " ") + ")"
+		if sf.Body != nil && env.unfold < 1 && !strings.Contains(t, "!q") {
+			// one-step unfolding of the defining equation for this application term
+			n := *env
+			n.vars = make(map[string]Val, len(env.vars)+len(sf.PNames))
+			for k, v := range env.vars {
+				n.vars[k] = v
+			}
+			for i, pn := range sf.PNames {
+				n.vars[pn] = Val{T: a[i], S: sf.Params[i]}
+			}
+			n.unfold = env.unfold + 1
+			body := fv.evalSpec(sf.Body, &n)
+			ax := fmt.Sprintf("(assert (= %s %s))", t, body.T)
+			if !fv.declS[ax] {
+				fv.declS[ax] = true
+				fv.decls = append(fv.decls, ax)
+			}
+		}
+		return Val{T: t, S: sf.Ret}
 	}
 	arg := func(i int) Val { return fv.evalSpec(e.Args[i], env) }
 	switch e.Name {
@@ -771,4 +792,18 @@ func (fv *FV) tryParseTypeName(name string) (t types.Type) {
 		}
 	}()
 	return fv.parseTypeName(name)
+}
+
+// smallConstRange: a quantifier over a literal range of at most 64 values is expanded.
+func smallConstRange(e *Expr) bool {
+	if e.Args[0].Op != "int" || e.Args[1].Op != "int" {
+		return false
+	}
+	lo, ok1 := new(big.Int).SetString(e.Args[0].Name, 0)
+	hi, ok2 := new(big.Int).SetString(e.Args[1].Name, 0)
+	if !ok1 || !ok2 {
+		return false
+	}
+	d := new(big.Int).Sub(hi, lo)
+	return d.Cmp(big.NewInt(64)) <= 0
 }
